@@ -89,6 +89,9 @@ def _check_handler(r, idx, fi, h):
         isinst_pos = any(_is_isinstance_mitx(g, err) for g in guards)
         isinst_neg = any(isinstance(g, ast.UnaryOp) and isinstance(g.op, ast.Not) and _is_isinstance_mitx(g.operand, err)
                          for g in guards)
+        if p.leaf.kind != 'raise' and _delegates_to_raising_helper(idx, fi, p):
+            r.undecided(construct, 'the handler delegates to a helper that always raises; its contract is not analysed inline', where)
+            continue
         if p.leaf.kind != 'raise':
             r.violation(construct, 'a path through the handler %s instead of raising (guards: %s): the failure is '
                         'swallowed or a non-result is returned' % ('returns' if p.leaf.kind == 'ret' else 'falls through',
@@ -177,6 +180,19 @@ def _check_handler(r, idx, fi, h):
                            ('generic', 'no path replaces unanticipated failures by StudentFacingError')):
             if need not in kinds:
                 r.violation(construct, what, lib.loc(fi, h))
+
+
+def _delegates_to_raising_helper(idx, fi, path):
+    """The last effect on the path is a call of a package function none of whose paths returns."""
+    for e in reversed(path.effects):
+        for c in ast.walk(e):
+            if isinstance(c, ast.Call):
+                targets, how = idx.resolve_call(fi, c)
+                funcs = [t for t in targets if not isinstance(t, tuple)]
+                if funcs and all(cfg_of(t.node).exit_return not in cfg_of(t.node).reachable_nodes() for t in funcs):
+                    return True
+        break
+    return False
 
 
 def _tainted_templates(msg):
